@@ -62,6 +62,7 @@ type Event struct {
 }
 
 var opCodes = map[string]int{"MoveTo": 1, "LineTo": 2, "QuadTo": 3, "CubeTo": 4, "ArcTo": 5, "Arc": 6, "Close": 7, "Append": 8, "Join": 9,
+	"RoundTrip": 200, "Free": 201,
 	"Shape:Line": 101, "Shape:Rectangle": 102, "Shape:BeveledRectangle": 103, "Shape:RoundedRectangle": 104, "Shape:Circle": 105, "Shape:Ellipse": 106,
 	"Shape:Grid": 107, "Shape:Arc": 108, "Shape:EllipticalArc": 109, "Shape:Triangle": 110, "Shape:RegularPolygon": 111, "Shape:RegularStarPolygon": 112, "Shape:StarPolygon": 113}
 
@@ -152,6 +153,9 @@ func judgeCfg(nchunks int) string {
 	return fmt.Sprintf("SPECIFICATION TSpec\nCONSTANTS MaxLen = 1000\n EmitFrom = 0\n Profile = \"mix\"\n NChunks = %d\nCHECK_DEADLOCK FALSE\n", nchunks)
 }
 
+// JudgeEvents is judge for other drivers (C11 judges parsed paths with the same trace specification).
+func JudgeEvents(c *core.Ctx, evs []Event) (map[int]Verdict, bool) { return judge(c, evs) }
+
 // judge runs Trace_Builder.tla over the events and returns the verdicts of the deviating ones.
 func judge(c *core.Ctx, evs []Event) (map[int]Verdict, bool) {
 	out := map[int]Verdict{}
@@ -212,6 +216,9 @@ func verdictMismatches(v Verdict, s *Scenario, ev Event, offDetail string) []cor
 		if v.Geom == "other" {
 			sig += geomTag(s)
 		}
+		if v.Geom == "shape-mismatch" && len(s.Hist) == 1 {
+			sig += ":" + strings.TrimPrefix(s.Hist[0].Op, "Shape:")
+		}
 		ms = append(ms, core.Mismatch{Signature: sig, Detail: fmt.Sprintf("history %s (embedding %s): decoded stream %v; normal form of the requested geometry %s", histString(s.Hist), s.Emb, sm, mustJSON(v.Exp))})
 	}
 	return ms
@@ -235,6 +242,17 @@ func geomTag(s *Scenario) string {
 		t += ":collinear-reversal"
 	}
 	return t
+}
+
+func hasOp(h []Call, ops ...string) bool {
+	for _, c := range h {
+		for _, o := range ops {
+			if c.Op == o {
+				return true
+			}
+		}
+	}
+	return false
 }
 
 func histString(h []Call) string {
@@ -421,7 +439,7 @@ func (r *run) handle(p []byte, extra int) {
 	embs := []string{"id"}
 	for i := 0; i < extra; i++ {
 		e := Embs[1+int((h>>(8*uint(i)))%uint64(len(Embs)-1))]
-		if (e.E != 0 || e.F != 0) && (len(l.Hist) == 0 || l.Hist[0].Op != "MoveTo" || l.F.MvClose) {
+		if (e.E != 0 || e.F != 0) && (len(l.Hist) == 0 || l.Hist[0].Op != "MoveTo" || l.F.MvClose || hasOp(l.Hist, "Append", "Join")) {
 			e = Embs[1+int((h>>(8*uint(i)+3))%uint64(len(Embs)-2))] // an origin-fixing one instead
 		}
 		embs = append(embs, e.Name)
@@ -503,6 +521,7 @@ func (r *run) judgeAll() {
 
 func (d Driver) Run(c *core.Ctx) error {
 	log.SetOutput(io.Discard) // Path.Segments logs a deprecation warning per call
+	defer FilterStdout()()
 	c.Rule = "scenario = history of builder calls (MoveTo/LineTo/QuadTo/CubeTo/ArcTo/Arc/Close/Append/Join, lattice arguments) generated by TLC from spec/Builder.tla with the normal form of its documented meaning, replayed under the identity and further similarity embeddings; plus shape-constructor calls. distinct = distinct history; non-trivial = at least 2 calls, non-empty normal form, and a normalisation or special case is exercised (a call is dropped/merged/converted so that pieces != segment calls, or Arc/Append/Join occurs, or a collinear reversal, or Close on a pending MoveTo)"
 	c.Assumptions = []string{
 		"coordinates are lattice integers mapped through similarity embeddings; a decoded value further than 1e-6 lattice units from the lattice is reported (offgrid), arcs are restricted to radii/rotations whose canonical form is lattice-exact",
